@@ -23,14 +23,25 @@ structure ObsRec where
   dump : String
   deriving Repr
 
-/-- the Spec predicate of C02 on one observation -/
-def readOK (outcome : String) (recs : List ObsRec) : Bool :=
-  outcomeAllowed outcome &&
-  recs.all fun r => !r.isTree || (useAllowed r.use && !(r.dump.startsWith "MALFORMED"))
+/-- "either reports an error or delivers trees": a reader that returns normally hands over at least one
+    record (a tree or an error); `ok` with no record at all is neither -/
+def reportsOrDelivers (outcome : String) (recs : List ObsRec) : Bool :=
+  outcome != "ok" || !recs.isEmpty
 
-/-- F7 (known finding, runtime behaviour outside any model): the nesting probe at
-    depth ≥ 10⁶ ends in a crash of the process. -/
+/-- the Spec predicate of C02 on one observation.  A record that carries an error may come with a
+    half-built tree (PhyloXML): its `use` field then says how traversing that tree went. -/
+def readOK (outcome : String) (recs : List ObsRec) : Bool :=
+  outcomeAllowed outcome && reportsOrDelivers outcome recs &&
+  recs.all fun r =>
+    if r.isTree then useAllowed r.use && !(r.dump.startsWith "MALFORMED")
+    else r.use == "" || useAllowed r.use
+
+def containsSub (s sub : String) : Bool := (s.splitOn sub).length ≥ 2
+
+/-- F7 (known finding, runtime behaviour outside any model): the Newick nesting probe at depth ≥ 3·10⁶ makes
+    the Go runtime abort with `fatal error: stack overflow`.  Exactly that: any other crash at that depth
+    (an index panic, another exit) is not this finding. -/
 def isF7 (depth : Nat) (outcome : String) : Bool :=
-  depth ≥ 1000000 && (outcome.startsWith "panic" || outcome.startsWith "exit")
+  depth ≥ 3000000 && outcome.startsWith "panic:" && containsSub outcome "fatal%20error%3A%20stack%20overflow"
 
 end Gotree.C02
